@@ -22,6 +22,10 @@ static Plan base_plan(const std::string &prop, uint64_t seed, Rng &r) {
     Plan p;
     p.prop = prop; p.seed = seed;
     p.t0 = (uint64_t)r.range(1, 5000) * 1000 + (r.chance(0.5) ? 0 : (uint64_t)r.range(0, 999));
+    if (r.chance(0.08)) { // an uptime just below a value at which a narrowed millisecond or second counter wraps (49.7 days, 24.8 days, 65.5 s, 136 years)
+        static const uint64_t W[] = {1ull << 32, 1ull << 31, 1ull << 16, (1ull << 32) * 1000, 3ull << 32, (1ull << 31) * 1000};
+        p.t0 = W[r.below(6)] - (uint64_t)r.range(0, r.chance(0.5) ? 300 : 3000);
+    }
     p.mac_seed = r.next();
     p.memfill = (uint8_t)r.pickl({0x00, 0xFF, 0xA5, 0xFE, 0xFE});
     p.memfill_seed = r.next();
@@ -148,6 +152,14 @@ static Plan gen_C01(uint64_t seed, Rng &r) {
     for (int i = 0; i < nops; i++) {
         Op o = rnd_lan_op(r, p, m, 6, mapper);
         add_net_faults(r, o, frate, p.nodes[0].mtu);
+        if ((o.kind == OP_DISCOVER || o.kind == OP_EMIT) && r.chance(0.08)) { // filled to (about) the MTU, counter over-declared, own address cut off by the end of the frame
+            int node = (int)r.below(p.nodes.size());
+            uint32_t mtu = p.nodes[(size_t)node].mtu;
+            o.f.clear();
+            o.f.push_back({F_PAD, (int64_t)mtu + r.pickl({0, 0, 0, -1, -2, 1, 7}), (int64_t)(r.next() & 0xFF)});
+            o.f.push_back({F_COUNT, r.pickl({0xFFFF, 0x7FFF, (int64_t)(mtu - 36) / 6 + 1, (int64_t)(mtu - 34) / 14 + 1}), 0});
+            o.f.push_back({F_TAILMAC, r.range(1, 6), node});
+        }
         if (p.family == 2 && (o.kind == OP_EMIT || o.kind == OP_DISCOVER || o.kind == OP_QLT) && r.chance(0.6)) {
             uint32_t mtu = p.nodes[r.below(p.nodes.size())].mtu;
             Fault f; f.kind = F_COUNT;
@@ -174,9 +186,11 @@ static Plan gen_C02(uint64_t seed, Rng &r) {
     if (p.family == 2) { m.flood = 4; m.query = 8; m.fetch = 4; m.qlt = 6; }
     int nops = (int)r.range(5, 50);
     int mapper = (int)r.below(3);
+    bool platform_faults = r.chance(0.3); // a refused transmit or a failed allocation must not make any LATER frame malformed
     for (int i = 0; i < nops; i++) {
         Op o = rnd_lan_op(r, p, m, 6, mapper);
         add_net_faults(r, o, frate, p.nodes[0].mtu);
+        if (platform_faults && r.chance(0.12)) { Fault f; f.kind = r.chance(0.6) ? F_SENDFAIL : F_ALLOCFAIL; f.a = f.kind == F_SENDFAIL ? r.pickl({1, 2, 3, 0xFFFF}) : r.range(1, 3); f.b = 1; o.f.push_back(f); }
         p.ops.push_back(o);
     }
     return p;
@@ -420,11 +434,14 @@ static Plan gen_C09(uint64_t seed, Rng &r) {
         if (r.chance(0.5)) mapper = (int)r.below(4);
     }
     int nc = (int)r.range(1, 25);
+    bool slow = r.chance(0.25); // a leisurely continuation: gaps of seconds to half a minute between frames, and time to tick afterwards
     for (int i = 0; i < nc; i++) {
         Op o = rnd_lan_op(r, p, m, 5, mapper);
         add_net_faults(r, o, 0.1, p.nodes[0].mtu);
+        if (slow && r.chance(0.5)) o.dt = (uint32_t)(r.chance(0.5) ? r.range(1000, 6000) : r.range(6000, 35000));
         p.ops.push_back(o);
     }
+    if (slow) p.tail_ms = (uint32_t)r.range(1500, 5000);
     return p;
 }
 
@@ -446,10 +463,10 @@ static Plan gen_C10(uint64_t seed, Rng &r) {
         size_t cnt = (size_t)r.range(1, 6);
         Op e = mk(OP_EMIT, (uint32_t)r.range(20, 200), {mapper, -1, A, rnd_seq(r), -1, 0});
         // descriptor source: A itself, or an address the mapper makes A spoof - possibly one that unrelated stations also use
-        int pool = (int)r.below(3);
-        Mac spoof = pool == 0 ? nm[A] : World(p).station_mac(4 + (int)r.below(2));
+        int pool = (int)r.below(5);
+        Mac spoof = pool == 0 ? nm[A] : pool == 3 ? nm[B] : pool == 4 ? (r.chance(0.5) ? MAC_BCAST : MAC_ZERO) : World(p).station_mac(4 + (int)r.below(2));
         e.blob = rnd_descs(r, cnt, &spoof, &nm[B]);
-        if (pool != 0 && r.chance(0.7)) // unrelated traffic from the station that really owns that address, seen by B just before
+        if ((pool == 1 || pool == 2) && r.chance(0.7)) // unrelated traffic from the station that really owns that address, seen by B just before
             p.ops.push_back(mk(OP_PROBE, (uint32_t)r.range(1, 30), {spoof.a[5], spoof.a[5], r.chance(0.5) ? wire::W_PROBE : wire::W_TRAIN, 100 + B, 100 + B, 0, 0, 0}));
         p.ops.push_back(e);
         int un = (int)r.below(4);
@@ -509,6 +526,7 @@ static Plan gen_C11(uint64_t seed, Rng &r) {
             o.a[6] = fill; o.a[7] = pos;
             o.blob = {(uint8_t)r.below(p.nodes.size())};
             if (r.chance(0.05)) o.a[5] = 0;
+            if (r.chance(0.05)) { o.f.push_back({F_PAD, (int64_t)n.mtu + r.pickl({0, 0, -1, -2, -3}), 0x11}); o.f.push_back({F_COUNT, r.pickl({0xFFFF, (int64_t)(n.mtu - 36) / 6 + 1, (int64_t)(n.mtu - 36) / 6}), 0}); o.f.push_back({F_TAILMAC, r.range(1, 6), 0}); }
             p.ops.push_back(o);
         } else if (x < 9) p.ops.push_back(mk(OP_RESET, rnd_dt(r), {mapper, -1, r.chance(0.8) ? 0 : 1, r.chance(0.5) ? 1 : 0, 0, 0}));
         else if (x < 10) p.ops.push_back(mk(OP_HELLO, rnd_dt(r), {5, rnd_gen(r), 0, 1, 0, 0}));
@@ -654,7 +672,7 @@ static Plan gen_C14(uint64_t seed, Rng &r, uint64_t index) {
         if (x < 9) p.ops.push_back(mk(OP_A_MAP, 0, {r.chance(0.8) ? r.pickl({0, 1, 2, 3, 4, 5, 6, 7, 8, 9, 10, 11, 12, -1, -2, -3, 127, 128, 255}) : r.range(-128, 255)}));
         else if (x < 14) p.ops.push_back(mk(OP_A_ADV, 0, {1000 * (r.chance(0.7) ? r.pickl({0, 1, 4, 5, 6, 29, 30, 31, 50, 300}) : r.range(0, 70))}));
         else if (x < 16) p.ops.push_back(mk(OP_A_TICK, 0, {}));
-        else if (x < 17) p.ops.push_back(mk(OP_A_INACT, 0, {}));
+        else if (x < 17) p.ops.push_back(r.chance(0.85) ? mk(OP_A_INACT, 0, {}) : mk(OP_A_REINIT, 0, {}));
         else if (x < 18) p.ops.push_back(mk(OP_A_TADD, 0, {(int64_t)r.below(4), rnd_seq(r)}));
         else if (x < 19) p.ops.push_back(r.chance(0.8) ? mk(OP_A_CHARGE, 0, {}) : mk(OP_A_SETMAP, 0, {(int64_t)r.below(3), r.chance(0.5) ? r.pickl({0, 4, 5, 6, 29, 30, 31}) : big_jump(r)}));
         else p.ops.push_back(mk(OP_A_ADV, 0, {r.chance(0.8) ? r.range(0, 2500) : 1000 * big_jump(r)}));
@@ -678,6 +696,7 @@ static Plan gen_C15(uint64_t seed, Rng &r, uint64_t index) {
     for (int i = 0; i < nops; i++) {
         int x = (int)r.below(10);
         if (x < 6) p.ops.push_back(mk(OP_A_SESS, 0, {(int64_t)r.below(8)}));
+        else if (x < 7 && r.chance(0.3)) p.ops.push_back(mk(OP_A_REINIT, 0, {})); // a second, third, ... automaton created later in the life of the process
         else if (x < 9) p.ops.push_back(mk(OP_A_ADV, 0, {r.chance(0.9) ? 1000 * r.pickl({0, 0, 1, 1, 2, 3, 10}) : 1000 * big_jump(r)}));
         else p.ops.push_back(mk(OP_A_SETSESS, 0, {(int64_t)r.below(4), r.chance(0.9) ? r.pickl({0, 1, 2, 10}) : big_jump(r)}));
     }
@@ -708,7 +727,7 @@ static Plan gen_C16(uint64_t seed, Rng &r) {
         if (x < addw) p.ops.push_back(mk(OP_A_TADD, 0, {k, rnd_seq(r)}));
         else if (x < addw + 0.12) p.ops.push_back(mk(OP_A_TFIND, 0, {k, rnd_seq(r)}));
         else if (x < addw + 0.22) p.ops.push_back(mk(OP_A_TREM, 0, {k}));
-        else if (x < addw + 0.24) p.ops.push_back(mk(OP_A_TCLR, 0, {}));
+        else if (x < addw + 0.24) p.ops.push_back(r.chance(0.85) ? mk(OP_A_TCLR, 0, {}) : mk(OP_A_REINIT, 0, {}));
         else if (x < addw + 0.32) p.ops.push_back(mk(OP_A_TCOMPL, 0, {k, (int64_t)r.below(2)}));
         else if (x < addw + 0.40) p.ops.push_back(mk(OP_A_TICK, 0, {}));
         else p.ops.push_back(mk(OP_A_ADV, 0, {r.chance(0.5) ? r.range(0, 5000) : (r.chance(0.6) ? 1000 * r.pickl({59, 60, 61, 30, 120}) : (r.chance(0.9) ? r.range(0, 200000) : 1000 * big_jump(r)))}));
@@ -830,7 +849,7 @@ Plan generate_plan_indexed(const std::string &prop, uint64_t verif_seed, uint64_
             if (!p.api_world && p.ops.size() < 400) {
                 p.prop = prop; p.family = 50; p.seed = seed;
                 p.twin = prop == "C09";
-                if (prop != "C09" && prop != "C19" && prop != "C01") for (auto &o : p.ops) { std::vector<Fault> keep; for (auto &f : o.f) if (!fault_is_internal(f.kind)) keep.push_back(f); o.f = keep; }
+                if (prop != "C09" && prop != "C19" && prop != "C01" && prop != "C02") for (auto &o : p.ops) { std::vector<Fault> keep; for (auto &f : o.f) if (!fault_is_internal(f.kind)) keep.push_back(f); o.f = keep; }
                 return p;
             }
         }
